@@ -3,7 +3,7 @@
    model/Noop.v. *)
 From Coq Require Import List NArith Bool.
 From SV Require Import lib.Bytes model.Graph model.GraphInv model.GraphDump model.Noop gen.GenNoop
-  proofs.NoopProofs proofs.NoopBridge proofs.NoopCone2.
+  proofs.NoopProofs proofs.NoopBridge proofs.NoopCone2 proofs.NoopDefer proofs.NoopCone2x.
 (* the engine model of C01 (digests, skip check, plan edits) and the executed-cone statements on it:
    Required, not Imported (model/Engine.v and model/Graph.v share names), used qualified *)
 From SV Require model.Engine model.NoopExec proofs.NoopExecProofs.
@@ -426,6 +426,62 @@ Theorem C04_overtaken_check_keeps_the_hash :
   (forall l s s', step_op (OpResetToPending l) s = Ok s' -> has_hash l s' = false) /\
   (forall l s, step_op (OpDispatch l) s = set_sstate l (if has_hash l s then SChecking else SRunning) false s).
 Proof. exact skip_overtaken_tie. Qed.
+
+(* ------------------------------------------------------------------------------------------ *)
+(* The same over the transactions SINCE /repo 84081f2 (model/Noop.v: step_op2 / apply_op2 /       *)
+(* run_xops2 = Graph.step_op + the deferred-column layer of model/GraphExt.v: the flag of an      *)
+(* unchanged validation is decided in the transaction, re-attaching a node wakes deferred         *)
+(* consumers).  These are the transactions the E2 correspondence runs against the real code.      *)
+(* ------------------------------------------------------------------------------------------ *)
+
+(* EVERY history of them that ends in a successful build ends in a state of the shape
+   quiescent_success_b ... *)
+Theorem C04_bridge_since_84081f2 :
+  forall (cap : N) (hist : list xop),
+    successful_history2 cap hist -> quiescent_success_b (run_xops2 hist (init_st cap)) = true.
+Proof. exact bridge2. Qed.
+
+(* ... in which the restart and the watch rebuild with nothing changed are the identity: the first
+   sentence of the property for all histories of the present transactions. *)
+Theorem C04_noop_after_successful_history_since_84081f2 :
+  forall (cap : N) (hist : list xop),
+    successful_history2 cap hist ->
+    let q := run_xops2 hist (init_st cap) in
+    (forall rehash, unchanged_b q rehash = true ->
+       run_ops2 (startup_ops q [] rehash) q = q /\ (forall l, dispatch_guard l q = false) /\
+       step_xop2 XRevert q = Ok q /\ step_op2 OpDeleteDetached q = Ok q) /\
+    (forall rehash, unchanged_watch_b q rehash = true ->
+       watch_ops q rehash = [] /\ run_ops2 (watch_ops q rehash) q = q /\
+       (forall l, dispatch_guard l q = false) /\
+       step_xop2 XRevert q = Ok q /\ step_op2 OpDeleteDetached q = Ok q).
+Proof. exact noop_after_successful_history2. Qed.
+
+(* The cone over the evolving graph (C04_cone_invariant_partial2) for a rebuild stepped with the present
+   transactions: same clauses per transaction (cone_op2), same conclusions. *)
+Theorem C04_cone_invariant_partial2_since_84081f2 :
+  forall (q : st) (E G : list str) (ops : list op),
+    quiescent_success_b q = true -> inv_core_b q = true ->
+    cone_ops2x q E G [] q ops ->
+    let s := run_ops2 ops q in
+    let h := rebuild_hist2 [] q ops in
+    (forall l x, sstate_of l s = Some x -> sstate_of l q = Some x \/ tcone E G h (KStep, l)) /\
+    (forall k, attached k s = true -> attached k q = true \/ tcone E G h k) /\
+    (forall l, In l (dispatched ops) -> tcone E G h (KStep, l)) /\
+    (forall l, In l (executed2 ops q) -> tcone E G h (KStep, l)).
+Proof. exact cone_invariant_partial2x. Qed.
+
+(* what the E2 correspondence evaluates on every real rebuild trace (cone_ops2_first_bad2 = None) is the
+   hypothesis of that theorem *)
+Theorem C04_cone_checker_sound_since_84081f2 :
+  forall (q : st) (E G : list str) (ops : list op),
+    cone_ops2x_b q E G q ops = true -> cone_ops2x q E G [] q ops.
+Proof. exact cone_ops2x_b_ok. Qed.
+
+Example C04_example_rebuild_with_plan_rerun_since_84081f2 :
+  cone_ops2x_b ExR.q [ExR.plan_py] [] ExR.q ExR.ops = true /\
+  executed2 ExR.ops ExR.q = [ExR.plan; ExR.w] /\
+  dump_eqb (dump_of (run_ops2 ExR.ops ExR.q)) (dump_of (run_ops ExR.ops ExR.q)) = true.
+Proof. vm_compute. repeat split; reflexivity. Qed.
 
 (* ------------------------------------------------------------------------------------------ *)
 (* The second sentence about EXECUTED steps (not merely checked and skipped), on the engine      *)
